@@ -103,14 +103,16 @@ struct Search {
             size_t lo = (size_t)chunk * per_chunk, hi = std::min(frontier.size(), lo + per_chunk);
             for (size_t si = lo; si < hi; si++) {
                 const Hist &h = frontier[si];
-                if (!ctx.next()) {
-                    continue;
-                }
-                if (ctx.want_desc()) {
-                    ctx.describe(name + ": " + hist_str<Sys>(h) + " ; <every operation>",
-                                 "custom stage=" + std::to_string(stage_index) + " " + hist_ids(h) + (h.empty() ? "*" : ",*"));
-                }
                 for (int op = 0; op < nops; op++) {
+                    // one case per transition, so that a crash is attributed to (and only costs) the operation that crashed
+                    if (!ctx.next()) {
+                        continue;
+                    }
+                    if (ctx.want_desc()) {
+                        Hist h2 = h;
+                        h2.push_back((uint16_t)op);
+                        ctx.describe(name + ": " + hist_str<Sys>(h2), "custom stage=" + std::to_string(stage_index) + " " + hist_ids(h2));
+                    }
 #ifdef VX_LEDGER_HPP
                     if (check_ledger && (vx::ledger().live != 0 || vx::ledger().foreign != 0)) {
                         // every object of the previous transition is gone: nothing may be live, nothing foreign was released
